@@ -274,7 +274,8 @@ pub fn run(spec: &crate::Spec) -> Report {
     let scn = scenario(&spec.str("prog", "S1.G"));
     let b = Bounds {
         preemptions: spec.opt_usize("D").or(spec.opt_usize("P")).unwrap_or(usize::MAX),
-        deviations: 0,
+        // one spurious failure of a weak compare-exchange per execution
+        deviations: 1,
         max_execs: spec.usize("max", 5_000_000) as u64,
         delay: spec.opt_usize("D").is_some(),
     };
@@ -303,7 +304,7 @@ pub fn run_seq(spec: &crate::Spec) -> Report {
     }
     let b = Bounds {
         preemptions: usize::MAX,
-        deviations: 0,
+        deviations: 1,
         max_execs: 1000,
         delay: false,
     };
